@@ -352,7 +352,7 @@ def main(argv=None):
                 k = match_known(known, prop_id, sig)
                 if k is not None:
                     known_hits.setdefault(k["signature"], (k, sig, path))
-                else:
+                elif sig not in [v[0] for v in violations]:
                     violations.append((sig, path, txt))
             else:
                 os.remove(path)
